@@ -29,18 +29,20 @@ pub struct AnyVal {
     pub int: Option<isize>,
     pub flt: Option<f64>,
     pub made_from: i8,
+    /// `Some(elements)` makes the value an array (for `into_seq`); symbolic values are never arrays
+    pub arr: Option<&'static [AnyVal]>,
 }
 
 impl kani::Arbitrary for AnyVal {
     fn any() -> Self {
-        let v = AnyVal { is_int: kani::any(), int: kani::any(), flt: kani::any(), made_from: 0 };
+        let v = AnyVal { is_int: kani::any(), int: kani::any(), flt: kani::any(), made_from: 0, arr: None };
         kani::assume(v.int.is_none() || v.is_int); // doc contract of ValT::as_isize
         kani::assume(!v.is_int || v.flt.is_some()); // integers are numbers (as_f64 succeeds for all numeric values)
         v
     }
 }
 fn mk(tag: i8) -> AnyVal {
-    AnyVal { is_int: false, int: None, flt: None, made_from: tag }
+    AnyVal { is_int: false, int: None, flt: None, made_from: tag, arr: None }
 }
 /// an integer value as `From<isize>` builds it
 pub fn int_val(i: isize) -> AnyVal {
@@ -75,7 +77,7 @@ impl From<bool> for AnyVal {
 }
 impl From<isize> for AnyVal {
     fn from(i: isize) -> Self {
-        AnyVal { is_int: true, int: Some(i), flt: Some(i as f64), made_from: 2 }
+        AnyVal { is_int: true, int: Some(i), flt: Some(i as f64), made_from: 2, arr: None }
     }
 }
 impl From<usize> for AnyVal {
@@ -85,7 +87,7 @@ impl From<usize> for AnyVal {
 }
 impl From<f64> for AnyVal {
     fn from(f: f64) -> Self {
-        AnyVal { is_int: false, int: None, flt: Some(f), made_from: 4 }
+        AnyVal { is_int: false, int: None, flt: Some(f), made_from: 4, arr: None }
     }
 }
 impl From<String> for AnyVal {
@@ -162,7 +164,10 @@ impl jaq_core::ValT for AnyVal {
 }
 impl ValT for AnyVal {
     fn into_seq<S: FromIterator<Self>>(self) -> Result<S, Self> {
-        Err(self)
+        match self.arr {
+            Some(a) => Ok(a.iter().copied().collect()),
+            None => Err(self),
+        }
     }
     fn is_int(&self) -> bool {
         self.is_int
@@ -675,4 +680,60 @@ fn c20_datetime_to_array() {
     }
     assert!(is_int(&out[6], g.7 as i128));
     assert!(is_int(&out[7], g.8 as i128 - 1));
+}
+
+// (An obligation on `mktime` - "fractional instants keep their fraction, also before the epoch",
+// with DateTime::new / to_zoned / Timestamp accessors ghost-stubbed - was built and did not finish
+// in 600 s: symbolic execution walks `Error::str`'s `ToString` rendering on the unreachable error
+// paths, and `Error::str(impl ToString)` cannot be stubbed in the installed Kani.  DESIGN.md 7.)
+
+// ------------------------------------------------------------------------------------------
+// C13 / C05: byte offset -> character offset (regex match offsets)
+// ------------------------------------------------------------------------------------------
+/// number of characters (as bstr decodes them: every invalid byte sequence is one character)
+/// that start before byte `o`, and whether `o` is a character boundary
+fn chars_before(s: &[u8], o: usize) -> (usize, bool) {
+    use bstr::ByteSlice;
+    let mut n = 0;
+    for (start, _end, _c) in s.char_indices() {
+        if start == o {
+            return (n, true);
+        }
+        if start > o {
+            return (n, false);
+        }
+        n += 1;
+    }
+    (n, o == s.len())
+}
+
+/// `ByteChar::char_of_byte`, called for the capture groups of one match: the offsets are
+/// character boundaries of the subject, but *in no particular order* (group 2 may start before
+/// group 1, e.g. `(?:(x)|(y))+` on "yx" - the regex engine only guarantees that groups lie
+/// inside group 0).  Each call must return the number of characters before the offset; `None`
+/// makes `Match::new` panic on `unwrap`.
+fn char_of_byte_two<const N: usize>() {
+    let b: [u8; N] = kani::any();
+    let n: usize = kani::any();
+    kani::assume(n <= N);
+    let s = &b[..n];
+    let (o1, o2): (usize, usize) = kani::any();
+    kani::assume(o1 <= n && o2 <= n);
+    let ((c1, ok1), (c2, ok2)) = (chars_before(s, o1), chars_before(s, o2));
+    kani::assume(ok1 && ok2);
+    kani::cover!(o2 < o1);
+    kani::cover!(o1 < o2 && c2 < o2);
+    let mut bc = crate::regex::ByteChar::new(s);
+    assert!(bc.verif_char_of_byte(o1) == Some(c1));
+    assert!(bc.verif_char_of_byte(o2) == Some(c2));
+}
+#[kani::proof]
+#[kani::unwind(5)]
+fn c13_char_of_byte_2() {
+    char_of_byte_two::<2>()
+}
+#[kani::proof]
+#[kani::unwind(6)]
+fn c13_char_of_byte_3() {
+    char_of_byte_two::<3>()
 }
